@@ -285,7 +285,8 @@ def skeleton(ev):
 
 def out_name(comps):
     n = comps[-1]
-    return "/".join(comps[:-1] + [n + (".html" if g.has_ext(n) else "..html")])
+    # add_html_ext: name.ext -> name.ext.html; without extension -> name.html (since fix: 36cd83e; it was name..html)
+    return "/".join(comps[:-1] + [n + ".html"])
 
 
 def in_known_class(case, abs_prefix, page_comps):
